@@ -486,8 +486,10 @@ def r13_8(ctx: Ctx) -> RuleResult:
         rr.bad(parse, parse.node, "the leading root identifier must be optional", construct="optional root")
     bare = token_const(ctx, "TOKEN_BARE_PROPERTY")
     prop = token_const(ctx, "TOKEN_PROPERTY")
-    for qual in ("Parser.parse_selector_list", "Parser.parse_path"):
-        fn = ctx.repo.require_func(qual)
+    ctx.repo.require_func("Parser.parse_selector_list")
+    ctx.repo.require_func("Parser.parse_path")
+    parser_cls = ctx.repo.require_class("Parser")
+    for fn in sorted(parser_cls.methods.values(), key=lambda f: f.node.lineno):
         for c in calls(fn.node, "PropertySelector"):
             name = kw(c, "name")
             kinds = ctx.tokflow.kinds_at(fn, c, "stream.current")
@@ -600,4 +602,36 @@ def r13_12(ctx: Ctx) -> RuleResult:
     return rr
 
 
-RULES = [r13_1, r13_2, r13_3, r13_4, r13_5, r13_6, r13_7, r13_8, r13_9, r13_10, r13_11, r13_12]
+MEMBERSHIP_SAMPLES = (
+    # (item, container, contained?) - arrays by value, strings by substring, objects by member name
+    (1, (1, 2), True), (3, (1, 2), False), ("a", ("a", "b"), True), ("ab", ("a", "b"), False), ((1,), ((1,), 2), True), (None, (None,), True), (None, (1,), False),
+    ("b", "abc", True), ("bc", "abc", True), ("abc", "abc", True), ("", "abc", True), ("ac", "abc", False), ("abcd", "abc", False), ("x", "", False),
+    ("\u00e9t", "\u00e9t\u00e9", True),
+    ("a", {"a": 1}, True), ("b", {"a": 1}, False), ("ab", {"ab": None}, True), ("a", {"ab": 1}, False), ("", {"": 0}, True), ("a", {}, False),
+)
+
+
+def r13_13(ctx: Ctx) -> RuleResult:
+    """`in` and `contains` test membership in arrays (by value), strings (substrings) and objects (member names):
+    `JSONPathEnvironment.compare` is executed abstractly on MEMBERSHIP_SAMPLES, `x in c` and `c contains x` both."""
+    from sa.peval import UNKNOWN as _UNK
+
+    from .c02 import run_compare
+
+    rr = RuleResult("R13.13", "`in` / `contains` answer membership in arrays, strings and object keys (covering samples)", floor=len(MEMBERSHIP_SAMPLES) * 2)
+    fn = ctx.repo.require_func("JSONPathEnvironment.compare")
+    for item, box, want in MEMBERSHIP_SAMPLES:
+        for a, op, b in ((item, "in", box), (box, "contains", item)):
+            got = run_compare(ctx, "R13.13", a, op, b)
+            if got is _UNK:
+                raise AnalysisError(f"R13.13: what compare() answers for {a!r} {op} {b!r} cannot be determined")
+            if got is want:
+                rr.ok(fn.loc(), f"{a!r} {op} {b!r} is {want}")
+            else:
+                rr.bad(fn, fn.node, f"`{a!r} {op} {b!r}` is answered {'with an exception' if got not in (True, False) else got}; "
+                       f"{'the item is' if want else 'the item is not'} {'a substring of the string' if isinstance(box, str) else ('a member name of the object' if isinstance(box, dict) else 'an element of the array')}",
+                       construct=f"{a!r} {op} {b!r} -> {got if got in (True, False) else 'raises'}")
+    return rr
+
+
+RULES = [r13_1, r13_2, r13_3, r13_4, r13_5, r13_6, r13_7, r13_8, r13_9, r13_10, r13_11, r13_12, r13_13]
